@@ -44,10 +44,8 @@ func refSplit(seq uint32, msg []byte, payload int) (dgs [][]byte, ok bool) {
 
 type refBuf struct {
 	n     int
-	have  []bool
-	parts [][]byte
-	got   int
-	last  time.Duration // virtual time of the last arrival
+	parts map[int][]byte // by segment index
+	last  time.Duration  // virtual time of the last arrival
 }
 
 // refRx is the reference receiver.
@@ -73,26 +71,24 @@ func (r *refRx) recv(d []byte, now time.Duration) (msg []byte, done bool, malfor
 	}
 	b := r.bufs[seq]
 	if b == nil {
-		b = &refBuf{n: max + 1, have: make([]bool, max+1), parts: make([][]byte, max+1)}
+		b = &refBuf{n: max + 1, parts: map[int][]byte{}}
 		r.bufs[seq] = b
 	}
 	if idx >= b.n {
 		return nil, false, true
 	}
 	b.last = now
-	if b.have[idx] {
+	if _, dup := b.parts[idx]; dup {
 		return nil, false, false // a repeated segment adds nothing
 	}
-	b.have[idx] = true
 	b.parts[idx] = d[8:]
-	b.got++
-	if b.got < b.n {
+	if len(b.parts) < b.n {
 		return nil, false, false
 	}
 	delete(r.bufs, seq)
 	out := []byte{}
-	for _, p := range b.parts {
-		out = append(out, p...)
+	for i := 0; i < b.n; i++ {
+		out = append(out, b.parts[i]...)
 	}
 	return out, true, false
 }
